@@ -3567,6 +3567,10 @@ impl LineBuf {
 						}
 					}
 					_ => {
+						// A count puts that many copies - as long as that is an amount of text that can exist
+						if content.len().saturating_mul(self.verb_count.max(1)) > (1 << 30) {
+							return Err(format!("Count too large for put: {}", self.verb_count))
+						}
 						let content = match content {
 							RegisterContent::Span(text) => RegisterContent::Span(text.repeat(self.verb_count.max(1))),
 							RegisterContent::Line(text) => RegisterContent::Line(text.repeat(self.verb_count.max(1))),
